@@ -850,6 +850,31 @@ FORMS = [("tetraMINI", "condensed", 3), ("quad9", "mixed", 3), ("hexahedron27", 
          ("hexahedron20", "condensed", 2), ("triangle6", "condensed", 2), ("quad", "solid", 2), ("hexahedron", "mixed", 2)]
 
 
+def judge_dual(run, monitor, fam, mesh, x, pref, Jref, pscale, used, label, unit):
+    """Dual unknowns of a mixed (u, p, J) body in a homogeneous state, judged on the mesh of the case (fourth audit: which dual
+    points count was read from the dual mesh of the result, ``used``; a dual mesh that drops cells or points shrinks the judged
+    set).  Own bookkeeping: the documented dual regions carry one point per cell (constant pressure: hexahedron, quad, their
+    serendipity families), the vertices of every cell on their own (quad9, hexahedron27: disconnected bi- / tri-linear duals) or the
+    vertex points of the mesh (simplex and MINI families: the connected linear dual); and the dual fields as the body sees them -
+    interpolated at every quadrature point of every cell of the mesh of the case - are the same two constants."""
+    nvert = {"tetra10": 4, "triangle6": 3, "tetraMINI": 4, "triangleMINI": 3}.get(fam)
+    if nvert:
+        ndual = len(np.unique(mesh.cells[:, :nvert]))
+    else:
+        ndual = int(mesh.ncells) * {"quad9": 4, "hexahedron27": 8}.get(fam, 1)
+    run.compare(monitor, "formulation=mixed family=%s clause=dual-points-of-all-cells" % fam, float(max(abs(len(u_) - ndual) for u_ in used)), 0.0,
+                "%s: %r dual points belong to a cell of the pressure / volume-ratio fields, the mesh of the case has %d" % (label, [len(u_) for u_ in used], ndual),
+                unit=unit + ":dual-points")
+    ex = x.extract()
+    if any(np.shape(ex[i])[-1] != mesh.ncells or np.shape(ex[i])[-2] != np.shape(ex[0])[-2] for i in (1, 2)):
+        run.fail(monitor, "formulation=mixed family=%s clause=dual-fields-at-quadrature-points" % fam,
+                 "%s: dual fields extracted with shapes %r, %r for %d cells" % (label, np.shape(ex[1]), np.shape(ex[2]), mesh.ncells))
+        return
+    run.compare(monitor, "formulation=mixed family=%s clause=dual-fields-at-quadrature-points" % fam, max(maxabs(ex[1] - pref) / pscale, maxabs(ex[2] - Jref)), 1e-7,
+                "%s: pressure / volume ratio at the quadrature points of the cells are not K (J - 1) / J = det F of the homogeneous state" % label,
+                unit=unit + ":dual-fields-at-points")
+
+
 def case_curve_forms(rep):
     def fn(run):
         import felupe as fem
@@ -946,6 +971,7 @@ def case_curve_forms(rep):
                 errJ = maxabs(job.res.x[2].values[used[1]] - J)
                 run.compare("homogeneous.curve", "formulation=mixed family=%s clause=dual-fields" % fam, max(errp, errJ), 1e-7,
                             "%s: the pressure / volume-ratio unknowns are not K (J - 1) / J = det F of the homogeneous state" % label, unit="curve:forms:dual-fields")
+                judge_dual(run, "homogeneous.curve", fam, mesh, job.res.x, p["bulk"] * (J - 1), J, max(maxabs(hs[-1][1]), p["bulk"] * abs(J - 1)), used, label, "curve:forms")
             check_trace(run, mon.trace, label)
         finally:
             attach.detach_all()
@@ -1044,10 +1070,50 @@ def case_patch_job(rep):
             Fq = job.res.x.extract()[0][:d, :d]
             run.compare("homogeneous.patch", "family=%s formulation=%s clause=uniform-deformation-gradient" % (fam, kind), maxabs(Fq - A.reshape(d, d, 1, 1)), 1e-8,
                         "%s: deformation gradient is not uniform = A" % label, unit="patch-job:F")
+            if kind == "mixed":
+                # the dual unknowns of the sheared homogeneous state (the curve jobs reach diagonal states only): J = det A and
+                # p = dU/dJ = K (J - 1) at every dual point that belongs to a cell and at every quadrature point of the mesh of the
+                # case; the pressure is measured against the stress level
+                J = float(np.linalg.det(A))
+                F3 = np.eye(3)
+                F3[:d, :d] = A
+                pscale = max(maxabs(first_pk(W, F3)), p["bulk"] * abs(J - 1))
+                used = [np.unique(job.res.x[i].region.mesh.cells) for i in (1, 2)]
+                errp = maxabs(job.res.x[1].values[used[0]] - p["bulk"] * (J - 1)) / pscale
+                run.compare("homogeneous.patch", "family=%s formulation=mixed clause=dual-fields" % fam, max(errp, maxabs(job.res.x[2].values[used[1]] - J)), 1e-7,
+                            "%s: the pressure / volume-ratio unknowns are not K (J - 1) / J = det A of the homogeneous state" % label, unit="patch-job:dual-fields")
+                judge_dual(run, "homogeneous.patch", fam, mesh, job.res.x, p["bulk"] * (J - 1), J, pscale, used, label, "patch-job")
             check_trace(run, mon.trace, label)
         finally:
             attach.detach_all()
     return fn
+
+
+VIEW_LISTS = {"Uniaxial": "ux", "Planar Shear": "ps", "Biaxial": "bx"}
+
+
+def judge_view_axis(run, data, own, suffix, material, config):
+    """A curve is (stretch, force): the stretch axis a view returns is the list the caller passed for that load case (fourth audit:
+    the reference was selected by the returned label and the returned stretches only went into the sample, so a right force list
+    against another abscissa - the lateral stretch, the list of another load case - was not seen).  ``own`` = the caller's own
+    copies {"ux": .., "ps": .., "bx": ..} (the view is handed other copies; a list that is None is a load case that is not
+    included, as documented); every load case once, as many forces as stretches.  False: nothing more to compare."""
+    want = sorted(lab + suffix for lab, k in VIEW_LISTS.items() if own.get(k) is not None)
+    got = sorted(str(item[2]) for item in data)
+    if got != want:
+        run.fail("homogeneous.view", "view=labels material=%s clause=load-cases-returned" % material,
+                 "view of %s: load cases %r returned for the stretch lists %r" % (material, got, want))
+        return False
+    for lam, force, label in data:
+        mine = np.asarray(own[VIEW_LISTS[label[:len(label) - len(suffix)] if suffix else label]], float)
+        if np.shape(lam) != mine.shape or np.shape(force) != mine.shape:
+            run.fail("homogeneous.view", "view=%s material=%s clause=curve-length" % (label, material),
+                     "ViewMaterial %s of %s: %r stretches and %r forces returned for a list of %d stretches" % (label, material, np.shape(lam), np.shape(force), len(mine)))
+            return False
+        run.compare("homogeneous.view", "view=%s material=%s clause=stretch-axis" % (label, material), maxabs(np.asarray(lam, float) - mine) / maxabs(mine), 0.0,
+                    "ViewMaterial %s of %s: the stretches of the returned curve are not the list the caller passed for this load case" % (label, material),
+                    unit="view:stretch-axis:" + label, config=config + (label, "axis"))
+    return True
 
 
 def case_view_history(rep):
@@ -1083,7 +1149,8 @@ def case_view_history(rep):
             else:
                 Wv, um, st, tol = W, umat, state, 1e-6  # (lateral stretch from the view's hybr root solve: 1e-8)
                 force = lambda z: OH.principal_P(Wv, z)[0]
-            view = um.view(incompressible=incompressible, **lists, **kw)
+            # (the view gets copies: the returned stretch axes are compared with the lists of this case)
+            view = um.view(incompressible=incompressible, **{k: v.copy() for k, v in lists.items()}, **kw)
             ref = {}
             for lab, fs in st.items():
                 states = [fs(float(l)) for l in lists[key[lab]]]
@@ -1096,6 +1163,8 @@ def case_view_history(rep):
                 data = view.evaluate()
                 if len(data) != 3:
                     run.fail("homogeneous.view", "view=history clause=three-load-cases", "%d load cases returned for three stretch lists" % len(data))
+                    return
+                if not judge_view_axis(run, data, lists, " (Incompressible)" if incompressible else "", "OgdenRoxburgh(neo_hooke)", ("history", given, second, scale)):
                     return
                 for lam, f, lab in data:
                     r, eta, matters = ref[lab]
@@ -1122,21 +1191,49 @@ def case_view(name, rep):
         ux = np.linspace(0.8, 1.8, 6)
         ps = np.linspace(1.0, 1.8, 5)
         bx = np.linspace(1.0, 1.5, 4)
-        data = umat.view(ux=ux, ps=ps, bx=bx).evaluate()
-        ref = {"Uniaxial": [OH.uniaxial(W, l)[0] for l in ux],
-               "Planar Shear": [OH.principal_P(W, [l, 1.0, _l3_planar(W, l)])[0] for l in ps],
-               "Biaxial": [OH.biaxial(W, l, l)[0] for l in bx]}
+        own = {"ux": ux, "ps": ps, "bx": bx}  # (the views get copies: the returned stretch axes are compared with these)
+        copies = lambda o: {k: (None if v is None else v.copy()) for k, v in o.items()}
+        stress = {"Uniaxial": lambda l: OH.uniaxial(W, l)[0], "Planar Shear": lambda l: OH.principal_P(W, [l, 1.0, _l3_planar(W, l)])[0],
+                  "Biaxial": lambda l: OH.biaxial(W, l, l)[0]}
+        data = umat.view(**copies(own)).evaluate()
+        if not judge_view_axis(run, data, own, "", name, (name,)):
+            return
+        ref = {lab: [stress[lab](l) for l in own[k]] for lab, k in VIEW_LISTS.items()}
         for lam, force, label in data:
             r = np.array(ref[label])
             run.compare("homogeneous.view", "view=%s material=%s clause=curve" % (label, name), maxabs(np.asarray(force) - r) / max(maxabs(r), 1e-300), 1e-7 + REG.get(name, 0.0),
                         "ViewMaterial %s curve of %s differs from the analytic stress" % (label, name), unit="view:" + label, config=(label, name),
                         sample={"view": label, "material": name, "params": p, "stretch": list(map(float, lam)), "force": list(map(float, force))})
+        # fourth audit: the other two documented ways to say which curves are wanted (by index: every load case is left out /
+        # called directly once over the five materials).  (a) a list that is None: that load case is not included, the others are
+        # the curves of their lists; (b) the method of one load case with stretches=: the curve of *that* list, not of the list
+        # of the constructor (another length, another range)
+        k = (rep + REF.index(name)) % 3
+        left_out = ["ux", "ps", "bx"][k]
+        own2 = {**own, left_out: None}
+        data = umat.view(**copies(own2)).evaluate()
+        if judge_view_axis(run, data, own2, "", name, (name, "without", left_out)):
+            for lam, force, label in data:
+                r = np.array(ref[label])
+                run.compare("homogeneous.view", "view=%s material=%s clause=curve-with-a-list-left-out" % (label, name), maxabs(np.asarray(force) - r) / max(maxabs(r), 1e-300), 1e-7 + REG.get(name, 0.0),
+                            "ViewMaterial %s curve of %s with %s=None differs from the analytic stress" % (label, name, left_out), unit="view:list-left-out:" + left_out, config=(label, name, "without", left_out))
+        lab2 = ["Biaxial", "Uniaxial", "Planar Shear"][k]
+        meth = {"Uniaxial": "uniaxial", "Planar Shear": "planar", "Biaxial": "biaxial"}[lab2]
+        given = {"Uniaxial": np.array([0.9, 1.15, 1.4]), "Planar Shear": np.array([1.05, 1.3, 1.6]), "Biaxial": np.array([0.95, 1.1, 1.3])}[lab2]
+        item = getattr(umat.view(**copies(own)), meth)(stretches=given.copy())
+        if judge_view_axis(run, [item], {VIEW_LISTS[lab2]: given}, "", name, (name, "stretches=")):
+            r = np.array([stress[lab2](l) for l in given])
+            run.compare("homogeneous.view", "view=%s material=%s clause=curve-of-given-stretches" % (lab2, name), maxabs(np.asarray(item[1]) - r) / max(maxabs(r), 1e-300), 1e-7 + REG.get(name, 0.0),
+                        "ViewMaterial.%s(stretches=) of %s is not the analytic stress at the stretches handed to the method" % (meth, name),
+                        unit="view:stretches=:" + lab2, config=(lab2, name, "stretches="))
         if name == "neo_hooke":
             # a law with state variables in the same views (per-increment history loop): on monotone (primary) loading the
             # pseudo-elastic model is its base law
             um_sv = fem.OgdenRoxburgh(umat, r=3.0, m=1.0, beta=0.1)
             mono = {"ux": np.linspace(1.0, 1.8, 5), "ps": ps, "bx": bx}
-            data = um_sv.view(**mono).evaluate()
+            data = um_sv.view(**copies(mono)).evaluate()
+            if not judge_view_axis(run, data, mono, "", "OgdenRoxburgh(%s)" % name, (name, "OgdenRoxburgh")):
+                return
             ref2 = {"Uniaxial": [OH.uniaxial(W, l)[0] for l in mono["ux"]], "Planar Shear": ref["Planar Shear"], "Biaxial": ref["Biaxial"]}
             for lam, force, label in data:
                 r = np.array(ref2[label])
@@ -1146,14 +1243,23 @@ def case_view(name, rep):
         if name in ("mooney_rivlin", "yeoh", "ogden"):
             iso, Wiso, piso = ref_material(rng, name, condensed=True)
             Wi = OH.energy(name, {**piso, "bulk": 0.0})
-            data = iso[0].view(incompressible=True, ux=ux, ps=ps, bx=bx).evaluate()
-            refs = {"Uniaxial (Incompressible)": [OH.incompressible(Wi, l, l ** -0.5, l ** -0.5) for l in ux],
-                    "Planar Shear (Incompressible)": [OH.incompressible(Wi, l, 1.0, 1 / l) for l in ps],
-                    "Biaxial (Incompressible)": [OH.incompressible(Wi, l, l, l ** -2) for l in bx]}
+            inc = " (Incompressible)"
+            stress_i = {"Uniaxial": lambda l: OH.incompressible(Wi, l, l ** -0.5, l ** -0.5), "Planar Shear": lambda l: OH.incompressible(Wi, l, 1.0, 1 / l),
+                        "Biaxial": lambda l: OH.incompressible(Wi, l, l, l ** -2)}
+            data = iso[0].view(incompressible=True, **copies(own)).evaluate()
+            if not judge_view_axis(run, data, own, inc, name, (name, "incompressible")):
+                return
+            refs = {lab + inc: [stress_i[lab](l) for l in own[kk]] for lab, kk in VIEW_LISTS.items()}
             for lam, force, label in data:
                 r = np.array(refs[label])
                 run.compare("homogeneous.view", "view=%s material=%s clause=curve" % (label, name), maxabs(np.asarray(force) - r) / max(maxabs(r), 1e-300), 1e-9 + REG.get(name, 0.0),
                             "incompressible view %s of %s differs from the analytic stress" % (label, name), unit="view:" + label, config=(label, name))
+            item = getattr(iso[0].view(incompressible=True, **copies(own)), meth)(stretches=given.copy())
+            if judge_view_axis(run, [item], {VIEW_LISTS[lab2]: given}, inc, name, (name, "incompressible", "stretches=")):
+                r = np.array([stress_i[lab2](l) for l in given])
+                run.compare("homogeneous.view", "view=%s material=%s clause=curve-of-given-stretches" % (lab2 + inc, name), maxabs(np.asarray(item[1]) - r) / max(maxabs(r), 1e-300), 1e-9 + REG.get(name, 0.0),
+                            "ViewMaterialIncompressible.%s(stretches=) of %s is not the analytic stress at the stretches handed to the method" % (meth, name),
+                            unit="view:stretches=:" + lab2 + inc, config=(lab2 + inc, name, "stretches="))
     return fn
 
 
@@ -1215,7 +1321,10 @@ SPEC = {
     + ["curve:items:two-items", "curve:items:lateral-face", "curve:items:pseudo-elastic-cycles"]
     + ["curve:forms:condensed:mini", "curve:forms:mixed", "curve:forms:mixed:planestrain", "curve:forms:mixed:3d", "curve:forms:solid:one-cell", "curve:forms:mixed:one-cell",
        "curve:forms:condensed:one-cell", "curve:forms:nearly-incompressible", "curve:forms:dual-fields"]
-    + ["patch-job:solid", "patch-job:condensed", "patch-job:mixed", "patch-job:reaction-vector"],
+    + ["patch-job:solid", "patch-job:condensed", "patch-job:mixed", "patch-job:reaction-vector"]
+    # fourth audit (mirrored oracles): the stretch axis of every view against the caller's lists, the dual points from the caller's mesh
+    + ["view:stretch-axis:" + v + i for v in VIEW_LISTS for i in ("", " (Incompressible)")] + ["view:list-left-out:" + k for k in ("ux", "ps", "bx")]
+    + ["view:stretches=:" + v + i for v in VIEW_LISTS for i in ("", " (Incompressible)")] + ["curve:forms:dual-points", "curve:forms:dual-fields-at-points", "patch-job:dual-fields", "patch-job:dual-points", "patch-job:dual-fields-at-points"],
     "rule": ("displacement patch tests (random affine map on the whole boundary) on 12 element families with interior distortion, 3D and plane "
              "strain; uniaxial and biaxial load cases with CharacteristicCurve jobs (1, 3, 7 substeps, cyclic ramps, with/without symmetry "
              "planes, SolidBody and condensed nearly-incompressible body) on 10 families x 5 materials with oracle-side closed forms; material-"
@@ -1223,7 +1332,8 @@ SPEC = {
              "unloading / reloading paths (jobs and views with statevars=, second evaluate) against an own history loop; two steps with "
              "different boundary dictionaries, items=[a, b], tracked free faces, user callback with own force sums; length / modulus units "
              "1e-6 .. 250 / forces 1e-4 .. 1e5; condensed and mixed bodies on MINI / simplex / plane-strain families, one-cell meshes, K/mu up to "
-             "1e4; the patch test ramped as a job with the reaction vector P(F) N A0 of the sheared state; a configuration is distinct by "
+             "1e4; the patch test ramped as a job with the reaction vector P(F) N A0 of the sheared state; the stretch axis of every view curve "
+             "against the caller's own lists (a list left out, stretches= handed to one method); a configuration is distinct by "
              "(load case, family, material, formulation, substeps, unit)"),
     "assumptions": ["reference stresses: textbook energies in principal stretches (vmon/oracles/hyper.py), lateral stretches by brentq",
                     "Newton tolerance 1e-10/1e-11; comparison tolerances 1e-7 (forces) and 1e-8 (displacements)",
@@ -1231,6 +1341,8 @@ SPEC = {
                     "over the committed substeps / list members (own loop); view curves of that law 1e-6 (hybr root solve of the view)",
                     "unit sweep: lengths 3e-6 .. 250, total reactions 1e-4 .. 1e5 (above 1e-4 Newton's documented eps = 1e-3 still bounds the force error by 1e-9); "
                     "mixed (u, p, J) bodies are judged in the unit system of the draw only (one residual norm over rows of different units)",
+                    "views: the returned stretches are the caller's list exactly (tolerance 0: no arithmetic is documented on them); dual points of the mixed "
+                    "bodies counted from the caller's mesh (one per cell / vertices per cell / vertex points, as the documented dual regions say)",
                     "non-convergence of a job from the undeformed state in stretch increments <= 15 % is a violation, coarser subdivisions stay a skip"],
     "jobs": {"quick": 12, "thorough": 16},
     "timeout": {"quick": 1200, "thorough": 5400},
